@@ -416,6 +416,7 @@ static void case_c14(const Spec& spec, int alg, int target) {
 
 // C09: reported statistics are consistent with the adjustment they describe
 #include <gnu_gama/statan.h>
+#include <gnu_gama/xml/localnetwork_adjustment_results.h>
 static void case_c09(const Spec& spec0, int alg, const std::string& sigma_act, const Q& conf, const Q& sigma_apr2) {
   Spec spec = spec0; spec.sigma_act = sigma_act; spec.conf_pr = conf;
   Built b; if (!build(b, spec, ALGS[alg], Q(1, 10))) return;
@@ -490,6 +491,111 @@ static void case_c09(const Spec& spec0, int alg, const std::string& sigma_act, c
       for (auto& kv : r.stdev_obs) sx::check_eq(kv.second, r2.stdev_obs.at(kv.first), tag + " stdev of adjusted observation independent of sigma-apr"); }
   }
   sx::reached("net-c09");
+}
+
+
+
+
+// equality "to the printed precision": symbolic numbers travel exactly (reserved literals), constants are printed in
+// decimal by the real writer and compared with a relative tolerance of 1e-6 of the printed precision
+static void same_printed(Real got, Real want, const std::string& label, sx::f64 abs_tol = 0) {
+  if (sx::is_const(got) && sx::is_const(want)) { sx::f64 a = sx::numeric(got), b = sx::numeric(want); sx::f64 sc = ::fabs(b) > 1 ? ::fabs(b) : 1;
+    sx::check_true(::fabs(a - b) <= (abs_tol > 0 ? abs_tol : (sx::f64)1e-6 * sc), label + " (to the printed precision)", sx::show(got) + " vs " + sx::show(want)); }
+  else sx::check_eq(got, want, label);
+}
+// C12: the adjustment XML is read back by gama's own result reader without loss
+static void case_c12(const Spec& spec0, int alg, int covband) {
+  // a priori reference deviation and observation errors below 0.01 mm: the writer compares every standardised residual
+  // with the critical value (an uninterpreted Normal(...) here, constrained to its true neighbourhood [1.9, 2.0]); with
+  // larger errors each observation would fork, with the a posteriori deviation each comparison is a 15 s NRA query
+  Spec spec = spec0; spec.sigma_act = "apriori";
+  Built a; if (!build(a, spec, ALGS[alg], Q(1, 100000))) return;
+  { Real crit = GNU_gama::Normal((sx::rat(1) - a.net.IS->conf_pr()) / sx::rat(2)); sx::assume_range(crit, mpq_class(19, 10), mpq_class(2)); }
+  make_oracle(a); if (!a.orc.resolves) return;
+  LocalNetwork* IS = a.net.IS.get(); Oracle& o = a.orc;
+  IS->set_adj_covband(covband);
+  Res r = run_flow(a, true);
+  std::string tag = std::string(ALGS[alg]) + " xml cov-band " + std::to_string(covband);
+  sx::check_true(r.adjusted, tag + " adjusted", r.why); if (!r.adjusted) return;
+  std::ostringstream xml; GNU_gama::LocalNetworkXML writer(IS); writer.write(xml);
+  GNU_gama::LocalNetworkAdjustmentResults res;
+  try { std::istringstream in(xml.str()); res.read_xml(in); }
+  catch (const GNU_gama::Exception::parser& e) { sx::fail(tag + " the written XML is rejected by the result reader", std::string(e.what()) + " line " + std::to_string(e.line)); return; }
+  catch (...) { sx::fail(tag + " the written XML is rejected by the result reader", "exception"); return; }
+  sx::check_true(res.project_equations.equations == r.nobs && res.project_equations.unknowns == r.nunk && res.project_equations.degrees_of_freedom == r.dof && res.project_equations.defect == r.defect, tag + " counts read back", "");
+  same_printed(res.project_equations.sum_of_squares, r.vpv, tag + " sum of squares read back");
+  same_printed(res.standard_deviation.apriori, IS->apriori_m_0(), tag + " a priori m0 read back");
+  same_printed(res.standard_deviation.aposteriori, IS->m_0_aposteriori_value(), tag + " a posteriori m0 read back");
+  sx::check_true(res.standard_deviation.using_aposteriori == IS->m_0_aposteriori(), tag + " sigma-act read back", "");
+  // adjusted points
+  std::map<std::string, Real> got;
+  for (auto& p : res.adjusted_points) { if (p.hxy) { got[p.id + ".X"] = p.x; got[p.id + ".Y"] = p.y; } if (p.hz) got[p.id + ".Z"] = p.z;
+    const Pt* sp = spec.pt(p.id); bool con_xy = false, con_z = false; if (sp) for (char ch : sp->adj) { if (ch == 'X' || ch == 'Y') con_xy = true; if (ch == 'Z') con_z = true; }
+    if (p.hxy) sx::check_true(p.cxy == con_xy, tag + " constrained flag xy of " + p.id, ""); if (p.hz) sx::check_true(p.cz == con_z, tag + " constrained flag z of " + p.id, ""); }
+  sx::check_true(got.size() == r.adj.size(), tag + " same adjusted coordinates listed", std::to_string(got.size()));
+  for (auto& kv : r.adj) { auto it = got.find(kv.first); sx::check_true(it != got.end(), tag + " adjusted " + kv.first + " present", ""); if (it != got.end()) same_printed(it->second, kv.second, tag + " adjusted " + kv.first + " read back"); }
+  // fixed points
+  for (auto& p : res.fixed_points) { const Pt* sp = spec.pt(p.id); sx::check_true(sp != nullptr, tag + " fixed point known", p.id); if (!sp) continue; if (p.hz) same_printed(p.z, sx::constant(sp->z), tag + " fixed z of " + p.id); if (p.hxy) { same_printed(p.x, sx::constant(sp->x), tag + " fixed x of " + p.id); same_printed(p.y, sx::constant(sp->y), tag + " fixed y of " + p.id); } }
+  // observations
+  sx::check_true((int)res.obslist.size() == r.nobs, tag + " observation list length", "");
+  if ((int)res.obslist.size() == r.nobs) for (int i = 1; i <= r.nobs; i++) { auto& ob = res.obslist[i - 1]; Observation* real = IS->ptr_obs(i);
+    same_printed(ob.obs, real->value(), tag + " observed value " + std::to_string(i));
+    same_printed(ob.adj, real->value() + IS->residuals()(i) / sx::rat(1000), tag + " adjusted observation " + std::to_string(i));
+    same_printed(ob.stdev, IS->stdev_obs(i), tag + " stdev of adjusted observation " + std::to_string(i));
+    same_printed(ob.qrr, IS->wcoef_res(i), tag + " qrr " + std::to_string(i), (sx::f64)6e-4); }   // written with 3 decimals
+  // covariance band = m0^2 Q of the oracle, exactly the band asked for
+  int dim = res.cov.dim(), band = res.cov.bandWidth(); int want = (covband == -1 || covband > dim - 1) ? dim - 1 : covband;
+  sx::check_true(dim == r.nunk && band == want && (int)res.original_index.size() == dim + 1, tag + " covariance band dimensions", std::to_string(dim) + "/" + std::to_string(band) + " unknowns " + std::to_string(r.nunk) + " wanted band " + std::to_string(want) + " index list " + std::to_string(res.original_index.size()));
+  if (dim == r.nunk && band == want && (int)res.original_index.size() == dim + 1) {
+    Real m0 = IS->m_0(); const GNU_gama::CovMat<>& C = res.cov;
+    for (int i = 1; i <= dim; i++) for (int j = i; j <= std::min(dim, i + band); j++) {
+      int ui = res.original_index[i], uj = res.original_index[j];     // 1-based list
+      int ci = o.col(IS->unknown_pointid(ui).str(), IS->unknown_type(ui)), cj = o.col(IS->unknown_pointid(uj).str(), IS->unknown_type(uj));
+      if (ci >= 0 && cj >= 0) same_printed(C(i, j), m0 * m0 * sx::constant(o.Qx(ci, cj)), tag + " cov-mat element " + std::to_string(i) + "," + std::to_string(j) + " = m0^2 q_xx"); }
+  }
+  sx::reached("net-c12");
+}
+
+// C13: the exported input describes the same survey, adjusts to the same results and is a fixed point of export
+static void case_c13(const Spec& spec, int alg, int rounds) {
+  Built a; if (!build(a, spec, ALGS[alg], Q(1, 10))) return;
+  Res ra = run_flow(a, true);
+  std::string tag = std::string(ALGS[alg]) + " export";
+  sx::check_true(ra.adjusted, tag + " original adjusted", ra.why); if (!ra.adjusted) return;
+  std::string xml_prev = a.net.IS->export_xml();
+  Res rprev = ra; std::vector<Observation*> obs_prev = a.obs;
+  std::vector<std::unique_ptr<Built>> keep;
+  for (int round = 1; round <= rounds; round++) {
+    std::string t = tag + " round " + std::to_string(round);
+    keep.emplace_back(new Built); Built& b = *keep.back();
+    if (!b.net.parse(xml_prev)) { sx::fail(t + " exported file is rejected by the parser", b.net.parse_error + " line " + std::to_string(b.net.parse_line)); return; }
+    b.obs = b.net.all_obs(); b.active.assign(b.obs.size(), true);
+    sx::check_true(b.obs.size() == obs_prev.size(), t + " same number of observations", std::to_string(b.obs.size())); if (b.obs.size() != obs_prev.size()) return;
+    for (size_t k = 0; k < b.obs.size(); k++) {
+      sx::check_true(otype(b.obs[k]) == otype(obs_prev[k]) && b.obs[k]->from().str() == obs_prev[k]->from().str() && b.obs[k]->to().str() == obs_prev[k]->to().str(), t + " observation " + std::to_string(k + 1) + " has the same type and end points", "");
+      sx::check_eq(b.obs[k]->value(), obs_prev[k]->value(), t + " value of observation " + std::to_string(k + 1));
+      sx::check_eq(b.obs[k]->stdDev(), obs_prev[k]->stdDev(), t + " standard deviation of observation " + std::to_string(k + 1));
+    }
+    // points and their status
+    LocalNetwork* A = (round == 1) ? a.net.IS.get() : keep[round - 2]->net.IS.get(); LocalNetwork* B = b.net.IS.get();
+    // the parser takes observed coordinates (<coordinates> cluster) as the approximate ones of that point, by design:
+    // for such points the approximate values are compared from the second round on only
+    std::set<std::string> observed_pts; for (Observation* o : b.obs) { OType ot = otype(o); if (ot == CX || ot == CY || ot == CZ) observed_pts.insert(o->from().str()); }
+    for (auto it = A->PD.begin(); it != A->PD.end(); ++it) { const LocalPoint& p = it->second; if (!p.active()) continue; const LocalPoint& q = B->PD[it->first];
+      if (round == 1 && observed_pts.count(it->first.str())) { sx::check_true(p.fixed_xy() == q.fixed_xy() && p.free_xy() == q.free_xy() && p.free_z() == q.free_z() && p.fixed_z() == q.fixed_z(), t + " status of point " + it->first.str(), ""); continue; }
+      sx::check_true(p.fixed_xy() == q.fixed_xy() && p.free_xy() == q.free_xy() && p.constrained_xy() == q.constrained_xy() && p.fixed_z() == q.fixed_z() && p.free_z() == q.free_z() && p.constrained_z() == q.constrained_z(), t + " status of point " + it->first.str(), "");
+      if (p.test_xy()) { sx::check_true(q.test_xy(), t + " xy present", ""); if (q.test_xy()) { sx::check_eq(p.x(), q.x(), t + " x of " + it->first.str()); sx::check_eq(p.y(), q.y(), t + " y of " + it->first.str()); } }
+      if (p.test_z()) { sx::check_true(q.test_z(), t + " z present", ""); if (q.test_z()) sx::check_eq(p.z(), q.z(), t + " z of " + it->first.str()); } }
+    sx::check_eq(A->apriori_m_0(), B->apriori_m_0(), t + " sigma-apr"); sx::check_eq(A->tol_abs(), B->tol_abs(), t + " tol-abs"); sx::check_true(A->m_0_apriori() == B->m_0_apriori(), t + " sigma-act", "");
+    b.net.prepare(ALGS[alg], false);
+    Res rb = run_flow(b, true);
+    same_results(rb, rprev, t + " re-adjustment", true, true);
+    sx::check_true(B->linearization_iterations() == 0, t + " no further linearisation iterations", "");
+    std::string xml2 = B->export_xml();
+    if (round > 1 || observed_pts.empty()) sx::check_true(xml2 == xml_prev, t + " exporting again yields the same file", "");
+    xml_prev = xml2; rprev = rb; obs_prev = b.obs;
+  }
+  sx::reached("net-c13");
 }
 
 // C20: ill-posed datum / structure: same diagnosis for every algorithm
@@ -579,6 +685,10 @@ static void gen_cases(const sx::Options& opt, std::vector<sx::Case>& cases) {
     }
     for (int kind = 0; kind < 4; kind++) add("net-c10/reject/kind" + std::to_string(kind), "malformed covariance matrices", [kind] { case_c10_reject(kind); });
   }
+  if (on("C12")) { int si = -1; static const int bands[] = {-1, 0, 1, 3, 2}; for (auto& s : fam) { si++; for (int bi = 0; bi < 5; bi++) { if (!th && bi != si % 5 && bi != (si + 2) % 5) continue; int cb = bands[bi]; int alg = (si + bi) % 3; auto sp = std::make_shared<Spec>(s);
+      add("net-c12/" + s.name + "/" + ALGS[alg] + "/band" + std::to_string(cb), "XML result read back", [sp, alg, cb] { case_c12(*sp, alg, cb); }); } } }
+  if (on("C13")) { int k = 0; for (auto& s : fam) { int alg = (k++) % 3; auto sp = std::make_shared<Spec>(s); int rounds = th ? 3 : 2;
+      add("net-c13/" + s.name + "/" + ALGS[alg], "export is a faithful fixed point", [sp, alg, rounds] { case_c13(*sp, alg, rounds); }); } }
   if (on("C14")) for (auto& s : fam) { if (s.name.find("fixed") == std::string::npos) continue; size_t nobs = 0; for (auto& c : s.cl) nobs += c.obs.size();
       for (int alg = 0; alg < 3; alg++) for (size_t t = 0; t < nobs; t += (th ? 1 : 3)) { auto sp = std::make_shared<Spec>(s); int tt = (int)t;
         add("net-c14/" + s.name + "/" + ALGS[alg] + "/obs" + std::to_string(t), "tol-abs threshold and deletion equivalence", [sp, alg, tt] { case_c14(*sp, alg, tt); }); } }
